@@ -170,3 +170,18 @@ func OverlapsLen(a, b []byte) bool {
 	b0 := uintptr(unsafe.Pointer(unsafe.SliceData(b)))
 	return a0 < b0+uintptr(len(b)) && b0 < a0+uintptr(len(a))
 }
+
+// PoolChurn takes one buffer of every size class 1..maxClass twice from the shared pool,
+// overwrites it and gives it back: what an io.Reader that uses the pool for scratch space does.
+func PoolChurn(maxClass int) {
+	for c := 1; c <= maxClass; c *= 2 {
+		for k := 0; k < 2; k++ {
+			b := PoolMalloc(c)
+			full := b[:cap(b)]
+			for i := range full {
+				full[i] = 0xEE
+			}
+			PoolFree(b)
+		}
+	}
+}
